@@ -219,8 +219,8 @@ def items(tier, seed):
         names = node_names(skel)
         npairs = len(names) * (len(names) - 1)
         for toppure in (False, True):
-            for r in range(0, (4 if th else 3) + 1):
-                if r == 4 and skel == 'B':
+            for r in range(0, (5 if th else 3) + 1):
+                if (r >= 4 and skel == 'B') or (r == 5 and skel == 'C'):
                     continue
                 total = ncombos(npairs, r)
                 step = 4000
